@@ -74,6 +74,86 @@ static std::string check_i64(int64_t v, bool through_doc) {
   return "";
 }
 
+// integers inside containers: the spelling must be exact wherever the integer lands in the write buffer (growth steps included)
+// shape: 0 flat array, 1 nested arrays (each integer k levels deep), 2 object values, 3 array of [int, "text"] pairs
+static std::string check_container(const std::vector<std::pair<uint64_t, bool>>& vals, int shape, int depth, bool reuse, size_t cap) {
+  Document d;
+  auto& a = d.GetAllocator();
+  std::string want;
+  auto spell = [](std::pair<uint64_t, bool> v) {
+    char t[32];
+    if (v.second) snprintf(t, sizeof t, "%lld", (long long)(int64_t)v.first);
+    else snprintf(t, sizeof t, "%llu", (unsigned long long)v.first);
+    return std::string(t);
+  };
+  auto mk = [&](std::pair<uint64_t, bool> v) {
+    Node n;
+    if (v.second) n.SetInt64((int64_t)v.first);
+    else n.SetUint64(v.first);
+    return n;
+  };
+  if (shape == 2) {
+    d.SetObject();
+    want = "{";
+    for (size_t i = 0; i < vals.size(); i++) {
+      std::string k = "k" + std::to_string(i);
+      d.AddMember(k, mk(vals[i]), a, true);
+      want += (i ? ",\"" : "\"") + k + "\":" + spell(vals[i]);
+    }
+    want += "}";
+  } else {
+    d.SetArray();
+    Node* cur = &d;
+    std::string close = "]";
+    want = "[";
+    int wrap = shape == 1 ? depth : 0;
+    for (int i = 0; i < wrap; i++) {
+      cur->PushBack(Node(kArray), a);
+      cur = &cur->Back();
+      want += "[";
+      close += "]";
+    }
+    for (size_t i = 0; i < vals.size(); i++) {
+      if (i) want += ",";
+      if (shape == 3) {
+        Node pair(kArray);
+        pair.PushBack(mk(vals[i]), a);
+        pair.PushBack(Node("t" + std::to_string(i), a), a);
+        cur->PushBack(std::move(pair), a);
+        want += "[" + spell(vals[i]) + ",\"t" + std::to_string(i) + "\"]";
+      } else {
+        cur->PushBack(mk(vals[i]), a);
+        want += spell(vals[i]);
+      }
+    }
+    want += close;
+  }
+  WriteBuffer wb(cap);
+  if (reuse) {
+    Document small;
+    small.Parse("[1,2,3]");
+    small.Serialize(wb);
+    wb.Clear();
+  }
+  void* neighbour = malloc(64);  // something behind the buffer, so that a growth step has to move it
+  SonicError e = d.Serialize(wb);
+  free(neighbour);
+  if (e != kErrorNone) return "Serialize of a container of integers failed with code " + std::to_string((int)e);
+  std::string got(wb.ToString(), wb.Size());
+  if (got != want) {
+    size_t i = 0;
+    while (i < got.size() && i < want.size() && got[i] == want[i]) i++;
+    return "Serialize of a container of " + std::to_string(vals.size()) + " integers differs from snprintf at output byte " + std::to_string(i) +
+           ": got " + printable(got.substr(i > 8 ? i - 8 : 0, 48)) + " want " + printable(want.substr(i > 8 ? i - 8 : 0, 48));
+  }
+  if (d.Dump() != want) return "Dump() of a container of integers differs from snprintf";
+  Document p;
+  p.Parse(got.data(), got.size());
+  if (p.HasParseError()) return "parse-back of a container of integers failed";
+  if (!(p == d)) return "parse-back of a container of integers is not equal to the document";
+  return "";
+}
+
 static std::string kernel_block(uint32_t block) {
   uint32_t lo = block * 65536u, hi = std::min<uint32_t>(lo + 65536u, 100000000u);
   char want[32];
@@ -117,6 +197,37 @@ static void property(Src& s, Case& c) {
       c.subevals++;
       if (memcmp(out, want, 16) != 0) c.fail("Utoa_16(" + std::to_string(v) + ") produced " + printable(std::string(out, 16)));
     }
+    return;
+  }
+  if (s.coin(1, 24)) {
+    // many integers in one document: every one of them must be spelled exactly, also the one at which the write buffer grows
+    static const size_t caps[] = {0, 1, 16, 33, 64, 255, 256, 257, 1024};
+    size_t n = s.coin(1, 2) ? (size_t)s.pick(1, 40) : (size_t)s.pick(1, 300);
+    int shape = (int)s.index(4), depth = (int)s.pick(1, 6);
+    bool reuse = s.coin(1, 3);
+    size_t cap = s.coin(1, 2) ? 256 : caps[s.index(9)];
+    std::vector<std::pair<uint64_t, bool>> vals;
+    std::string list;
+    size_t style = s.index(3);
+    for (size_t i = 0; i < n; i++) {
+      uint64_t x = style == 0 ? s.u64() : style == 1 ? s.pick(0, 99999) : (s.coin(1, 2) ? s.u64() : s.pick(0, 9));
+      bool sg = s.coin(1, 2);
+      vals.push_back({x, sg});
+      list += (i ? "," : "") + std::string(sg ? "i" : "u") + std::to_string(x);
+    }
+    c.note("ints", list);
+    c.note("shape", std::to_string(shape));
+    c.note("depth", std::to_string(depth));
+    c.note("reuse", reuse ? "1" : "0");
+    c.note("cap", std::to_string(cap));
+    c.cls("class:container");
+    c.cls("container:shape" + std::to_string(shape));
+    if (n * 12 > std::max<size_t>(cap, 64)) c.cls("container:outgrows-initial-buffer");
+    c.nt();
+    c.subevals += n;
+    if (c.counting) c.desc(std::to_string(n) + " integers in container shape " + std::to_string(shape) + ", buffer capacity " + std::to_string(cap));
+    std::string m = check_container(vals, shape, depth, reuse, cap);
+    if (!m.empty()) c.fail(m);
     return;
   }
   uint64_t v;
@@ -170,6 +281,21 @@ static void property(Src& s, Case& c) {
 static void direct(const Fields& f, Case& c) {
   if (const std::string* b = field(f, "block")) {
     std::string m = kernel_block((uint32_t)atol(b->c_str()) % kBlocks);
+    if (!m.empty()) c.fail(m);
+    return;
+  }
+  if (const std::string* l = field(f, "ints")) {
+    std::vector<std::pair<uint64_t, bool>> vals;
+    size_t i = 0;
+    while (i < l->size()) {
+      bool sg = (*l)[i] == 'i';
+      size_t e = l->find(',', i);
+      if (e == std::string::npos) e = l->size();
+      vals.push_back({strtoull(l->c_str() + i + 1, nullptr, 10), sg});
+      i = e + 1;
+    }
+    auto num = [&](const char* k, long dflt) { const std::string* x = field(f, k); return x ? atol(x->c_str()) : dflt; };
+    std::string m = check_container(vals, (int)num("shape", 0), (int)num("depth", 1), num("reuse", 0) != 0, (size_t)num("cap", 256));
     if (!m.empty()) c.fail(m);
     return;
   }
